@@ -723,7 +723,7 @@ def gen_exhaustive_its():
 
 
 def _rand_its(rng, n, kind):
-    ids = rng.sample(range(0, 40), n)
+    ids = rng.sample(range(0, max(40, 2 * n)), n)
     els = [rng.choice(("C", "C", "H", "H", "O", "N")) for _ in range(n)]
     nodes = []
     extras = rng.random() < 0.5
@@ -911,6 +911,42 @@ def gen_corpus_ext(rng, n_sample):
     return cases
 
 
+def _big_its(rng, n):
+    """25..60 atoms, several changed bonds spread over the graph, at least two unchanged H-H bonds, a few chords"""
+    g = _rand_its(rng, n, "its-rand")
+    for e in g["edges"]:
+        e[2].pop("is_mtg", None)
+    attrs = dict((i, a) for i, a in g["nodes"])
+    for e in rng.sample(g["edges"], min(3, len(g["edges"]))):
+        for x in e[:2]:
+            a = attrs[x]
+            a["element"] = "H"
+            a["typesGH"] = [["H"] + list(a["typesGH"][0][1:]), ["H"] + list(a["typesGH"][1][1:])]
+        e[2] = its_edge(1, 1)
+    for e in rng.sample(g["edges"], min(rng.randint(4, 16), len(g["edges"]))):
+        if not (attrs[e[0]]["element"] == "H" and attrs[e[1]]["element"] == "H"):
+            e[2] = its_edge(*rng.choice([(0, 1), (1, 0), (1, 2), (2, 1)]))
+    return g
+
+
+def gen_big(rng, tier):
+    """size classes: ITS graphs beyond 20 / 30 atoms, centres beyond 12 bonds, contexts beyond 30 atoms"""
+    q = tier == "quick"
+    cases = []
+    for _ in range(40 if q else 400):
+        cases.append(dict(kind="its-big", I=_big_its(rng, rng.randint(22, 60))))
+    for _ in range(30 if q else 300):
+        cases.append(dict(kind="help-big", I=_big_its(rng, rng.randint(22, 60)), helpers=HELPER_RADII))
+    for _ in range(20 if q else 200):
+        cases.append(dict(kind="lre-big", I=X.canon(_big_its(rng, rng.randint(22, 40))), lre=True))
+    for _ in range(30 if q else 300):
+        cases.append(dict(kind="x-big", X=X.rand_x(rng, rng.randint(22, 45)), keys=list(rng.choice(X.KEY_CHOICES))))
+    gs = [_big_its(rng, rng.randint(22, 40)) for _ in range(6)]
+    for _ in range(6 if q else 60):
+        cases.append(dict(kind="list-big", Is=[rng.choice(gs) for _ in range(rng.randint(2, 4))], k=rng.choice((1, 2, 3))))
+    return cases
+
+
 def gen_cases(tier, rng):
     exh = gen_exhaustive_its()
     cases = list(exh)
@@ -924,4 +960,5 @@ def gen_cases(tier, rng):
     cases += gen_helpers(rng, tier, [c for c in exh if c["kind"] == "its-exh"])
     cases += gen_ia(rng, tier)
     cases += gen_corpus_ext(rng, 30 if q else None)
+    cases += gen_big(rng, tier)
     return cases
